@@ -171,7 +171,7 @@ macro_rules! lru_harness {
     };
 }
 
-// @verif property=C13 class=complete fns=IPDiversityEnforcer::can_accept_node uses=v6_pre,v6_below_caps,lru_harness,mk_enforcer,any_config tier=quick,thorough panic=violation
+// @verif property=C13 class=complete fns=IPDiversityEnforcer::can_accept_node uses=v6_pre,v6_below_caps,lru_harness,mk_enforcer,any_config tier=off panic=violation
 lru_harness! {
     fn c13_v6_can_accept_iff_below_caps() {
         let mut e = mk_enforcer(any_config());
@@ -187,7 +187,7 @@ lru_harness! {
     }
 }
 
-// @verif property=C13 class=complete fns=IPDiversityEnforcer::add_node uses=v6_pre,v6_below_caps,v6_others_unchanged,lru_harness,mk_enforcer,any_config tier=quick,thorough panic=violation
+// @verif property=C13 class=complete fns=IPDiversityEnforcer::add_node uses=v6_pre,v6_below_caps,v6_others_unchanged,lru_harness,mk_enforcer,any_config tier=off panic=violation
 lru_harness! {
     fn c13_v6_add_contract() {
         let mut e = mk_enforcer(any_config());
@@ -217,7 +217,7 @@ lru_harness! {
     }
 }
 
-// @verif property=C13 class=complete fns=IPDiversityEnforcer::remove_node uses=v6_pre,v6_others_unchanged,lru_harness,mk_enforcer,any_config tier=quick,thorough panic=violation
+// @verif property=C13 class=complete fns=IPDiversityEnforcer::remove_node uses=v6_pre,v6_others_unchanged,lru_harness,mk_enforcer,any_config tier=off panic=violation
 lru_harness! {
     fn c13_v6_remove_contract() {
         let mut e = mk_enforcer(any_config());
@@ -236,7 +236,7 @@ lru_harness! {
     }
 }
 
-// @verif property=C13 class=complete fns=IPDiversityEnforcer::add_node,IPDiversityEnforcer::remove_node uses=v6_pre,lru_harness,mk_enforcer,any_config tier=quick,thorough panic=violation
+// @verif property=C13 class=complete fns=IPDiversityEnforcer::add_node,IPDiversityEnforcer::remove_node uses=v6_pre,lru_harness,mk_enforcer,any_config tier=off panic=violation
 lru_harness! {
     fn c13_v6_add_then_remove_is_identity() {
         let mut e = mk_enforcer(any_config());
@@ -361,7 +361,7 @@ macro_rules! lru_harness_v4 {
     };
 }
 
-// @verif property=C13 class=complete fns=IPDiversityEnforcer::can_accept_ipv4,IPDiversityEnforcer::can_accept_unified uses=v4_pre,v4_below_caps,lru_harness_v4,mk_enforcer,any_config,any_per_ip tier=quick,thorough panic=violation
+// @verif property=C13 class=complete fns=IPDiversityEnforcer::can_accept_ipv4,IPDiversityEnforcer::can_accept_unified uses=v4_pre,v4_below_caps,lru_harness_v4,mk_enforcer,any_config,any_per_ip tier=off panic=violation
 lru_harness_v4! {
     fn c13_v4_can_accept_iff_below_caps() {
         let mut e = mk_enforcer(any_config());
@@ -387,7 +387,7 @@ lru_harness_v4! {
     }
 }
 
-// @verif property=C13 class=complete fns=IPDiversityEnforcer::add_ipv4,IPDiversityEnforcer::add_unified uses=v4_pre,v4_others_unchanged,lru_harness_v4,mk_enforcer,any_config,any_per_ip tier=quick,thorough panic=violation
+// @verif property=C13 class=complete fns=IPDiversityEnforcer::add_ipv4,IPDiversityEnforcer::add_unified uses=v4_pre,v4_others_unchanged,lru_harness_v4,mk_enforcer,any_config,any_per_ip tier=off panic=violation
 lru_harness_v4! {
     fn c13_v4_add_contract() {
         let mut e = mk_enforcer(any_config());
@@ -411,7 +411,7 @@ lru_harness_v4! {
     }
 }
 
-// @verif property=C13 class=complete fns=IPDiversityEnforcer::remove_ipv4,IPDiversityEnforcer::remove_unified uses=v4_pre,v4_others_unchanged,lru_harness_v4,mk_enforcer,any_config tier=quick,thorough panic=violation
+// @verif property=C13 class=complete fns=IPDiversityEnforcer::remove_ipv4,IPDiversityEnforcer::remove_unified uses=v4_pre,v4_others_unchanged,lru_harness_v4,mk_enforcer,any_config tier=off panic=violation
 lru_harness_v4! {
     fn c13_v4_remove_contract() {
         let mut e = mk_enforcer(any_config());
